@@ -29,6 +29,7 @@ Reference semantics (DESIGN.md appendix A5, restating the property statement)
 """
 
 import itertools
+import posixpath
 
 # --------------------------------------------------------------------------
 # printer
@@ -195,13 +196,16 @@ class Reference:
             # a dynamic target sees only `context`; context['self'] is the most-derived view, which at this moment
             # reaches the levels attached so far; a target that evaluates to None means "no parent"
             if inh[0] == "s":
-                uri = inh[1]
+                target = inh[1]
             else:
                 cx = dict(self.ctx)
                 cx["self"] = _View(self, 0)
-                uri = eval(inh[1], {"__builtins__": {}}, {"context": cx})
-                if uri is None:
+                target = eval(inh[1], {"__builtins__": {}}, {"context": cx})
+                if target is None:
                     break
+            # appendix A6: an absolute target is itself; a relative one is joined to the directory of the
+            # template that contains the tag (never of the rendered template)
+            uri = target if target.startswith("/") else posixpath.join(posixpath.dirname(uri), target)
         self.k = len(self.levels) - 1
         # a call stack longer than the number of distinct render callables repeats one of them; callables take no
         # data-dependent branch, so such a stack never unwinds
@@ -389,6 +393,8 @@ def alphabet(seed):
 #   inh    : 's' static inherit target | 'd' target from ${context['upN']} | 'a<j>' target from
 #            ${context['self'].attr.<attr>_layN}, the attribute declared at level j | 'n' / 'N' target
 #            ${context.get('upN')} with upN absent / None: no parent          (always 's' in the last level)
+#            | 'P<d><a|r><0|1>' family G: this level lives in directory PLACE_DIRS[d], spells its static target
+#            absolutely / relatively; last character = decoy templates on (level 0 only)
 #   cc     : '-' | 'n' next.body() | 's' self.body() | 'nz' next.body(z=..) | 'sz' self.body(z=..)
 
 KINDS = ("-", "d", "dp", "dn", "b", "bp")
@@ -457,6 +463,8 @@ def build_file(i, L, spec, al, probes, defsig="", extra_attrs=()):
             f["inherit"] = ("s", al["uri"] % (i + 1))
         elif inh == "d":
             f["inherit"] = ("d", "context['up%d']" % (i + 1))
+        elif inh[0] == "P":
+            f["inherit"] = ("s", "?")  # spelled by build_program, which knows where the next level lives
         elif inh in ("n", "N"):
             # optional layout: the name is absent from the render context ('n') or bound to None ('N')
             f["inherit"] = ("d", "context.get('up%d')" % (i + 1))
@@ -474,7 +482,64 @@ def build_file(i, L, spec, al, probes, defsig="", extra_attrs=()):
 _FILES = {}
 
 
+PLACE_DIRS = ["", "/site", "/site/sub"]  # depth 0, 1, 2
+
+
+def build_placed(chain, al, probes, defsig=""):
+    """family G: level i lives in directory PLACE_DIRS[d_i]; its inherit target is spelled absolutely ('a') or
+    relatively to its own directory ('r': `L2.html`, `sub/L2.html`, `../L2.html`, `../../site/L2.html` ..).  The uri
+    of a level is what the spelling denotes (appendix A6: absolute = itself, relative = joined to the directory of the
+    template containing the tag, not normalised).  With the decoy switch, every relative spelling also gets a decoy
+    template wherever it would lead if it were resolved against another level of the chain."""
+    L = len(chain)
+    files = {}
+    pk = tuple(probes)
+    base = [al["uri"] % i for i in range(L)]
+    uris = [PLACE_DIRS[int(chain[0][6][1])] + "/" + base[0]]
+    spelled = []
+    for i in range(L - 1):
+        code = chain[i + 1][6]
+        target = PLACE_DIRS[int(code[1])] + "/" + base[i + 1]
+        if chain[i][6][2] == "a":
+            sp = target
+            uris.append(target)
+        else:
+            here = posixpath.normpath(posixpath.dirname(uris[i]) or "/")
+            sp = posixpath.relpath(target, here)
+            uris.append(posixpath.join(posixpath.dirname(uris[i]), sp))
+        spelled.append(sp)
+    for i, spec in enumerate(chain):
+        sp = spelled[i] if i < L - 1 else None
+        key = ("placed", i, L, spec, al["n1"], al["uri"], pk, defsig, sp)
+        f = _FILES.get(key)
+        if f is None:
+            f = dict(build_file(i, L, spec, al, probes, defsig))
+            f["inherit"] = ("s", sp) if sp is not None else None
+            f["_text"] = print_file(f)
+            _FILES[key] = f
+        files[uris[i]] = f
+    if chain[0][6][3] == "1":
+        n1 = al["n1"]
+        for i, sp in enumerate(spelled):
+            if sp.startswith("/"):
+                continue
+            for k in range(L):
+                wrong = posixpath.join(posixpath.dirname(uris[k]), sp)
+                if posixpath.normpath(wrong.lstrip("/")).startswith(".."):
+                    continue  # would lie above the root: no template can have that uri
+                if k != i and wrong not in files:
+                    files[wrong] = {
+                        "page": None,
+                        "inherit": None,
+                        "attrs": [],
+                        "body": [("T", "[DECOY%d" % (i + 1)), ("D", n1, [("T", "(%s@decoy)" % n1)], defsig), ("T", "|"), ("E", "next.body()"), ("T", "]")],
+                    }
+    return {"files": files, "main": uris[0], "ctx": {"P": "@helper:P", "A": "@helper:A"}}
+
+
 def build_program(chain, al, probes, defsig=""):
+    if chain[0][6][0] == "P":
+        return build_placed(chain, al, probes, defsig)
     L = len(chain)
     files = {}
     ctx = {"P": "@helper:P", "A": "@helper:A"}
@@ -518,7 +583,14 @@ def chain_valid(chain):
             return False  # z= only to a body that declares it
         if cc == "sz" and not chain[0][4]:
             return False
-        if inh != "s" and i == L - 1:
+        if inh[0] == "P":
+            if any(sp[6][0] != "P" for sp in chain):
+                return False
+            if i == L - 1 and inh[2:] != "a0":
+                return False  # the last level has no target to spell
+            if i > 0 and inh[3] != "0":
+                return False  # the decoy switch is carried by level 0
+        elif inh != "s" and i == L - 1:
             return False
         if inh[0] == "a" and int(inh[1:]) > i:
             return False  # the attribute must be visible when the target is evaluated: same or more-derived level
@@ -642,6 +714,23 @@ def grid_none_target(L, fam="F"):
     return (fam, L, opts, PROBES_M1, "")
 
 
+def grid_placed(L, full, fam="G"):
+    """family G: every level in a directory of depth 0..2 of its own choice, targets spelled absolutely or relatively,
+    decoys on/off; member absent/def (all levels def, every body chained, when not `full`)"""
+    opts = []
+    for i in range(L):
+        pos = _pos(i, L)
+        o = []
+        for m1 in ("-", "d") if full else ("d",):
+            for d in (0, 1, 2):
+                for sp in ("a",) if pos == "base" else ("a", "r"):
+                    for decoy in ("0", "1") if i == 0 else ("0",):
+                        for cc in _cc(pos, ("-", "n") if full else ("n",)):
+                            o.append((m1, "-", 0, 0, 0, 0, "P%d%s%s" % (d, sp, decoy), cc))
+        opts.append(o)
+    return (fam, L, opts, PROBES_M1, "")
+
+
 def grid_chains(grid, shard=0, nshards=1):
     """the chain_valid() chains of the grid in product order; with nshards > 1 only those whose prefix (levels 0 and
     1; level 0 for short chains) has index = shard modulo nshards - the shards partition the grid"""
@@ -685,6 +774,8 @@ def grids(tier):
         g.append(grid_attr_target(L))
     for L in (2, 3):
         g.append(grid_none_target(L))
+    g.append(grid_placed(3, True))
+    g.append(grid_placed(4, tier == "thorough"))
     if tier == "thorough":
         g.append(grid_attr_target(5))
         g.append(grid_none_target(4))
